@@ -50,6 +50,39 @@ RES = Duck((3,), "float32")
 DEF = Duck((3,), "float32")
 
 
+class _Ambiguous:
+    def __bool__(self):
+        raise ValueError("The truth value of an array with more than one element is ambiguous")
+
+
+class ArrayEqDuck(Duck):
+    """compares element-wise like a NumPy array of several elements: the result of == / != has no truth value"""
+    __hash__ = None
+
+    def __eq__(self, other):
+        return _Ambiguous()
+
+    def __ne__(self, other):
+        return _Ambiguous()
+
+
+class AlwaysEqDuck(Duck):
+    """equal to everything (unittest.mock.ANY, a zero-size array whose comparison is an empty, falsy array)"""
+    def __eq__(self, other):
+        return True
+
+    def __ne__(self, other):
+        return False
+
+    __hash__ = object.__hash__
+
+
+# default objects of the generated signatures: what a default IS is decided by identity with the `empty` marker, never
+# by comparing the user's object
+DEFS = [DEF, ArrayEqDuck((3,), "float32"), AlwaysEqDuck((3,), "float32")]
+DEF_CHOICE = [0]
+
+
 def gen_sig(rng):
     n = rng.rng(1, 6)
     names = rng.sample(NAME_POOL, n)
@@ -116,7 +149,7 @@ def build(sig, fname, flavour, rec, annot_ret=True, raises=None):
     """the original callable (undecorated)"""
     params = render_params(sig, annot=flavour != "lambda")
     names = [p["name"] for p in sig]
-    scope = {"A": A, "DEF": DEF, "REC": rec, "RES": RES, "RAISES": raises}
+    scope = {"A": A, "DEF": DEFS[DEF_CHOICE[0]], "REC": rec, "RES": RES, "RAISES": raises}
     record = "REC.calls.append({" + ", ".join(f"{n!r}: {n}" for n in names) + "})"
     if flavour == "lambda":
         src = f"{fname} = lambda {params}: ({record}, RES)[1]"
@@ -290,9 +323,13 @@ def run_sig(out, drv, rng, sig, fname, ck, flavour):
     rec_f, rec_g = Recorder(), Recorder()
     is_async = flavour == "async"
     annot_ret = not is_async or rng.chance(1, 2)
+    DEF_CHOICE[0] = rng.below(len(DEFS)) if any(p["default"] for p in sig) else 0
+    defname = type(DEFS[DEF_CHOICE[0]]).__name__
     f = build(sig, fname, flavour, rec_f, annot_ret)
     g0 = build(sig, fname, flavour, rec_g, annot_ret)
-    rep = {"signature": sig, "function_name": fname, "checker": ck, "callable": flavour, "source_params": render_params(sig), "return_annotated": annot_ret}
+    DEF_CHOICE[0] = 0
+    rep = {"signature": sig, "function_name": fname, "checker": ck, "callable": flavour, "source_params": render_params(sig), "return_annotated": annot_ret,
+           "default_object": defname}
     try:
         g = jaxtyped(typechecker=tc)(g0)
     except BaseException as e:  # noqa: BLE001
